@@ -709,7 +709,7 @@ def collect_behaviours(chk: Check, thorough: bool, shapes):
     and dying; sets of up to two of four keys with a colliding pair) and simulation of bigger models."""
     hist = {}
     for cfg, label in (('MC_cover_states.cfg', 'cover_states'), ('MC_cover.cfg', 'cover_sets')):
-        g, res = tlc.dump_graph(SPEC, cfg, parse_states='init', timeout=900)
+        g, res = tlc.dump_graph(SPEC, cfg, parse_states='init', workers=1, timeout=900)   # 1 worker: stable edge order
         chk.add_model(f'TransferCache {label} graph ({cfg})', res)
         paths = tlc.path_cover(g)
         n = 0
@@ -782,7 +782,7 @@ def run(chk: Check, args):
     thorough = chk.tier == 'thorough'
     chk.cov['rule'] = ('history = (initial transfers reached through recipes of real state-method calls, sequence of '
                        'add/mutate/setdata/remove/write/stop+write/old-release-write/crash/restart/start stimuli) '
-                       'projected from TLC behaviours of TransferCache (edge cover of a small graph + simulation), '
+                       'projected from TLC behaviours of TransferCache (edge covers of two small state graphs + simulation), '
                        'each followed by a postlude (state change, stop+write, load, schedule) and executed with '
                        'several name concretisations on a real TransferManager + TransferShelveCache in a temp '
                        'directory; distinct = distinct (history, concretisation); non-trivial = contains a write '
